@@ -313,15 +313,15 @@ def explore_stack(make, label, case, p, expect_distinct, maxlen=3, workers=True)
                 break
         # simulated dataloader workers: fresh identical copy + own global seed + worker_init_fn(rank)
         for W in ((1, 2, 3) if workers else ()):
-            class Info:
-                num_workers = W
-            saved = kdt_mod.get_worker_info
-            kdt_mod.get_worker_info = lambda: Info()
+            import torch.utils.data._utils.worker as tw
+            saved = tw._worker_info
             try:
                 for rank in range(W):
                     set_global(0)
                     ds, idx_map = make()
-                    np.random.seed(9000 + 31 * rank + W)
+                    # torch's worker loop: worker info installed (seed = base seed + id), global seeds set, then worker_init_fn
+                    tw._worker_info = tw.WorkerInfo(id=rank, num_workers=W, seed=9000 + W + rank, dataset=ds)
+                    np.random.seed(9000 + W + rank)
                     ds.worker_init_fn(rank, batch_size=2, updates=100000)
                     p.traces += 1
                     for k in range(n_pos):
@@ -329,7 +329,7 @@ def explore_stack(make, label, case, p, expect_distinct, maxlen=3, workers=True)
                         # a second request on the same worker
                         ok = record(idx_map[k], dig(ds[k]), dict(worker=rank, of=W, position=k, repeat=True)) and ok
             finally:
-                kdt_mod.get_worker_info = saved
+                tw._worker_info = saved
     except Exception as e:
         p.violation(f"C08:exception_at_access:{type(e).__name__}|{label}", case, f"{label}: {type(e).__name__}: {e}")
         return
